@@ -88,3 +88,6 @@ Definition C16_ray_stmt : Prop :=
        (* ... and the only one: any crossing of the line with the triangle's plane has these coordinates *)
        (forall t' u' v', (forall i, (i < 3)%nat -> o i + t' * dir i = v0 i + u' * e1 i + v' * e2 i) ->
                          t' = t /\ u' = u /\ v' = v)).
+
+(** Ray::new(origin, direction) stores its arguments *)
+Definition C16_ray_new_stmt : Prop := forall k a, rrun k a p_ray_new = Ret ([], [a 0%nat; a 1%nat; a 2%nat; a 3%nat; a 4%nat; a 5%nat]).
